@@ -60,6 +60,53 @@ def mk_txn(rng, partitions, end=None, heavy=False):
             "end": end or rng.choice(["commit", "commit", "abort"]), "pause": rng.choice([0, 0, 0.01, 0.1])}
 
 
+def mk_parked_txn(rng, partitions, end, end_after, per_batch=1, ntasks=None, offsets=None):
+    """Concurrent send tasks with records so large that a batch holds `per_batch` of them: all but the first
+    send() calls to a partition park in MessageAccumulator.add_message (wait_drain) while the batch in front of
+    them is queued behind the one in flight; the application ends the transaction `end_after` seconds after
+    begin_transaction() without waiting for them."""
+    ntasks = ntasks or rng.choice([3, 4, 5, 6])
+    hot = rng.randrange(partitions)
+    tasks = []
+    for j in range(ntasks):
+        items = []
+        for _ in range(rng.choice([1, 1, 2])):
+            q = hot if rng.random() < 0.8 else rng.randrange(partitions)
+            items.append({"p": q, "sleep": rng.choice([0, 0, 0, 0.001, 0.003]), "n": rng.choice([1, 1, 2]),
+                          "size": PARKED_RECORD})
+        tasks.append(items)
+    return {"tasks": tasks, "offsets": offsets, "await_sends": False, "end": end, "pause": rng.choice([0, 0.01]),
+            "end_after": end_after}
+
+
+PARKED_RECORD = 120            # bytes of padding per record
+PARKED_BATCH = {1: 200, 2: 340}  # max_batch_size holding one / two such records
+
+
+def gen_parked_scenario(rng, sid, end_after, end=None, per_batch=None):
+    partitions = rng.choice([1, 1, 2])
+    brokers = rng.choice([1, 2])
+    per_batch = per_batch or rng.choice([1, 1, 2])
+    end = end or rng.choice(["commit", "abort"])
+    off = {"at": "before", "items": None} if rng.random() < 0.25 else None
+    first = mk_parked_txn(rng, partitions, end, end_after, per_batch, offsets=off)
+    # the next transaction on the same partitions ends the other way: a record that slipped out of the first
+    # one is then committed although aborted, or aborted although acknowledged in a committed transaction
+    second = {"tasks": [[{"p": q, "sleep": 0, "n": 1, "size": PARKED_RECORD}] for q in range(partitions)],
+              "offsets": None, "await_sends": True, "end": "abort" if end == "commit" else "commit", "pause": 0}
+    sc = {"id": sid, "seed": rng.randrange(1 << 30), "brokers": brokers, "partitions": partitions,
+          "marker_delay": rng.choice([0.0, 0.0, 0.03]), "linger_ms": rng.choice([0, 0, 2]),
+          "max_batch_size": PARKED_BATCH[per_batch], "request_timeout_ms": 2000, "retry_backoff_ms": 20,
+          "txn_coord": rng.randrange(brokers), "group_coord": rng.randrange(brokers),
+          "instances": [{"start_at": 0.0, "txns": [first, second]}],
+          "faults": {}, "moves": {}, "loading": {}, "kills": [], "quiet": 8.0, "family": "parked-sends"}
+    number_offsets(sc)
+    return sc
+
+
+PARKED_END_AFTER = [0.0005, 0.002, 0.003, 0.004, 0.005, 0.006, 0.0075, 0.009, 0.011, 0.014, 0.02]
+
+
 def number_offsets(sc):
     """Give every send_offsets_to_transaction call unique offset values (they identify the item)."""
     n = 200
@@ -410,6 +457,14 @@ def monitor(ck, sc, r, stats):
     stray = [x for x in all_visible if x not in owned]
     if stray:
         viol(f"records {stray} are visible but were never accepted into a transaction", "stray-visible")
+    # ---- a send() that raised was refused: its record must never reach a partition
+    refused = {sd["rid"] for sd in r["sends"] if sd.get("state") == "refused"}
+    if refused:
+        stats["refused_sends"] = stats.get("refused_sends", 0) + len(refused)
+        written = sorted(rid for p in range(sc["partitions"]) for b in r["logs"][str(p)]["batches"]
+                         if not b["control"] for rid in b["rids"] if rid in refused)
+        if written:
+            viol(f"send() raised for records {written} but they were written to the log", "refused-send-written")
     # ---- client obligations as seen by the coordinator and the partition leaders
     for cv in r["client_violations"]:
         sig = SIG_UNREGISTERED if had_error and "not acknowledged" in cv["what"] else "obligation:" + cv["what"][:60]
@@ -491,6 +546,13 @@ def build_scenarios(ck):
     for _ in range(ck.n(24, 500)):
         scs.append(gen_scenario(rng, sid, instances=None) if False else gen_scenario(rng, sid))
         sid += 1
+    # (b) sends parked in the accumulator while the application commits / aborts: every end time of the grid
+    #     for a few shapes (quick), many shapes (thorough)
+    for _ in range(ck.n(4, 60)):
+        shape_seed = rng.randrange(1 << 30)
+        for ea in PARKED_END_AFTER:
+            scs.append(gen_parked_scenario(random.Random(shape_seed), sid, ea))
+            sid += 1
     return scs, sid, rng
 
 
@@ -527,7 +589,10 @@ def run(ck: Check):
     ]
     ck.cov["rule"] = ("one evaluation = one simulated run (1-2 producer instances with the same transactional id, "
                       "1-3 transactions each over 1-3 partitions, concurrent send tasks, send_offsets_to_transaction "
-                      "before/after/concurrently, commit or abort, marker delay, coordinator placement) with a fault "
+                      "before/after/concurrently, commit or abort, marker delay, coordinator placement; family "
+                      "'parked sends': records so large that a batch holds one or two, 3-6 concurrent send tasks "
+                      "parked in the accumulator, commit/abort issued at each time of a grid after begin without "
+                      "waiting for them, followed by a transaction ending the other way) with a fault "
                       "plan (single faults enumerated over every ordinal of every transactional API of base runs; "
                       "coordinator moves; loading windows; kills at every request of an instance, applied or not, "
                       "followed by a replacement instance; random multi-fault plans); non-trivial = at least one "
@@ -603,7 +668,8 @@ def run(ck: Check):
             extra.append(sc)
     # ---- random multi-fault plans
     for _ in range(ck.n(30, 2500)):
-        sc = gen_scenario(rng, sid)
+        sc = gen_scenario(rng, sid) if rng.random() < 0.85 else \
+            gen_parked_scenario(rng, sid, rng.choice(PARKED_END_AFTER))
         sid += 1
         for _f in range(rng.choice([1, 2, 3])):
             api = rng.choice(TXN_APIS)
